@@ -14,5 +14,8 @@
 // limitations under the License.
 
 fn main() {
+    // cfg names used by the (additive, off by default) verification hooks.
+    println!("cargo:rustc-check-cfg=cfg(flacenc_verif)");
+    println!("cargo:rustc-check-cfg=cfg(flacenc_verif_loom)");
     built::write_built_file().expect("Failed to acquire build-time information")
 }
